@@ -686,6 +686,39 @@ func ruleSFan(c *Ctx) {
 		}
 	}
 	c.MinInstances("S-fan", n, 14)
+	// NewDebugger: every attachment list is its own slice (or left nil)
+	if nd := c.P.Func(dbgPkg, "", "NewDebugger"); nd != nil {
+		backing := map[ssa.Value][]string{}
+		for _, b := range nd.Blocks {
+			for _, ins := range b.Instrs {
+				st, ok := ins.(*ssa.Store)
+				if !ok {
+					continue
+				}
+				fa, ok := st.Addr.(*ssa.FieldAddr)
+				if !ok || namedOf(fa.X.Type()) != "debugger" {
+					continue
+				}
+				v := st.Val
+				if sl, isSl := v.(*ssa.Slice); isSl {
+					v = sl.X
+				}
+				if k, isK := v.(*ssa.Const); isK && k.Value == nil {
+					continue
+				}
+				backing[v] = append(backing[v], fieldName(fa.X.Type(), fa.Field))
+			}
+		}
+		var shared []string
+		for _, fs := range backing {
+			if len(fs) > 1 {
+				sort.Strings(fs)
+				shared = append(shared, strings.Join(fs, "+"))
+			}
+		}
+		sort.Strings(shared)
+		c.Check(len(shared) == 0, "S-fan", "NewDebugger/separate-lists", nd.Pos(), "each attachment list starts as its own slice", "NewDebugger initialises several attachment lists with one shared backing array ("+strings.Join(shared, "; ")+"): attaching to one event overwrites the handlers of another")
+	}
 }
 
 func namedOf(t types.Type) string {
